@@ -152,6 +152,17 @@ def _canon_cond(f, o):
     return (("v", o[1]), False)
 
 
+def _switch_keys(f, t):
+    """[(key, target block)] of a switch: the key of case K is the key `icmp eq value, K` would get"""
+    a = _canon_op(f, t.ops[0])
+    out = []
+    for cv, tb in t.cases:
+        b = ("k", cv)
+        x, y = (a, b) if repr(a) <= repr(b) else (b, a)
+        out.append((("icmp", "eq", x, y), tb))
+    return out
+
+
 class ResAnalysis(object):
     def __init__(self, mod):
         self.mod = mod
@@ -218,6 +229,9 @@ class ResAnalysis(object):
                     cc = _canon_cond(f, t.ops[0])
                     if cc is not None:
                         cnt[cc[0]] = cnt.get(cc[0], 0) + 1
+                elif t.op == "switch":
+                    for k_, tb_ in _switch_keys(f, t):
+                        cnt[k_] = cnt.get(k_, 0) + 1
             f._res_multi = set(k for k, n in cnt.items() if n > 1)
         # ... and only those that decide whether the acquisition or one of its possible releases executes
         from .pivot import _cd_closure
@@ -240,6 +254,9 @@ class ResAnalysis(object):
                     cc = _canon_cond(f, t.ops[0])
                     if cc is not None:
                         keys.add(cc[0])
+                elif t.op == "switch":
+                    for k_, tb_ in _switch_keys(f, t):
+                        keys.add(k_)
         multi = f._res_multi & keys
         start = (0, 0, frozenset(), frozenset(), 0, False)
         seen = set()
@@ -375,6 +392,25 @@ class ResAnalysis(object):
                                 work.append((tg, 0, nf, nh, bid, live))
                     else:
                         work.append((tg, 0, nf, nh, bid, live))
+            elif t.op == "switch":
+                sk = _switch_keys(f, t)
+                for s in b.succ:
+                    if (bid, s.id) in dead:
+                        continue
+                    # facts on this edge: case K -> (key_K, True); default -> every (key_K, False)
+                    mine = [(k_, True) for k_, tb_ in sk if tb_ == s.id]
+                    if s.id == t.default and not mine:
+                        mine = [(k_, False) for k_, tb_ in sk]
+                    elif len(mine) > 1:
+                        mine = []           # several cases share the target: no single fact
+                    elif mine:
+                        mine = mine + [(k_, False) for k_, tb_ in sk if k_ != mine[0][0]]
+                    cur = dict(nf)
+                    if any(k_ in cur and cur[k_] != v_ for k_, v_ in mine):
+                        continue
+                    add = frozenset((k_, v_) for k_, v_ in mine if k_ in multi and k_ not in cur)
+                    nf2 = nf | add if len(nf) + len(add) <= MAXFACTS else nf
+                    work.append((s.id, 0, nf2, nh, bid, live))
             else:
                 for s in b.succ:
                     if (bid, s.id) in dead:
